@@ -110,7 +110,9 @@ package fsnotify
 //@   ensures !closed(w.done) && !found ==> err != nil && errIs(err, ErrNonExistentWatch)                                      [C17]
 //@   ensures !closed(w.done) && found && err == nil ==> !has(open, fd) && !has(w.watches.wd, fd) && !has(w.watches.path, p) && !has(w.watches.byUser, p)    [C17] "when a watch ends through Remove its descriptor is closed and its table entries are gone"
 //@   ensures Shrinks(w)                                                                                                        [C17] "removing opens nothing and adds no entry"
+//@   ensures forall(k, int, has(open, k) && has(old(w.watches.wd), k) ==> has(w.watches.wd, k))                                [C17] "a descriptor that is still open is still in the table: a Remove that fails leaves the watch as it was, so that it can be retried and the descriptor is not orphaned"
 //@   loop 1 "for _, name := range pathsToRemove"
+//@     invariant forall(k, int, has(open, k) && has(old(w.watches.wd), k) ==> has(w.watches.wd, k))
 //@     invariant nolocks() && KWf(w) && !has(open, fd) && !has(w.watches.wd, fd) && !has(w.watches.path, p) && !has(w.watches.byUser, p) && Shrinks(w)
 
 //@ func (w *kqueue) Remove(name string) (err error)
@@ -122,6 +124,7 @@ package fsnotify
 //@   ensures nolocks()
 //@   ensures !closed(w.done) && found && err == nil ==> !has(open, fd) && !has(w.watches.wd, fd) && !has(w.watches.path, p) && !has(w.watches.byUser, p)    [C17]
 //@   ensures Shrinks(w)                                                                                                        [C17]
+//@   ensures forall(k, int, has(open, k) && has(old(w.watches.wd), k) ==> has(w.watches.wd, k))                                [C17] "a descriptor that is still open is still in the table"
 
 //@ func (w *kqueue) Close() (err error)
 //@   requires KWf(w) && nolocks()
@@ -160,6 +163,7 @@ package fsnotify
 //@     invariant nolocks() && KWf(w) && open == old(open) && w.watches.wd == old(w.watches.wd) && w.watches.seen == old(w.watches.seen) && hist(w.Events) == old(hist(w.Events))
 
 //@ func (w *kqueue) internalWatch(name string, fi os.FileInfo) (res string, err error)
+//@   atcall kqueue.addWatch: arg_listDir                                                                                     [C17 C18] "an entry watch is filed under the directory it was found in (not under the target of a link), so that removing that directory finds and closes it"
 //@   atcall kqueue.addWatch: arg_name == name && arg_flags & (unix.NOTE_DELETE | unix.NOTE_RENAME) == unix.NOTE_DELETE | unix.NOTE_RENAME     [C18 C17] "an entry of a watched directory is watched at least for its own removal and renaming: that is what ends its watch and clears its seen mark, so that the name can be reported as created again"
 //@   requires KWf(w) && nolocks()
 //@   ensures KWf(w)
@@ -203,6 +207,7 @@ package fsnotify
 //@   atcall shared.sendEvent: ok && path.linkName == "" && arg_e.Op & (Rename | Remove) != 0 ==> lastRemoved == path.name     [C17] "a Rename or Remove notification ends the watch: before it is reported, the removal of that watch has been carried out"
 //@   atcall kqueue.dirChange: ok && path.linkName == "" && event.Op & (Rename | Remove) != 0 ==> lastRemoved == path.name      [C17] "also when the notification is a directory change combined with a rename"
 //@   atcall kqueue.dirChange: arg_dir == event.Name || arg_dir == filepath.Clean(event.Name)                                 [C18] "a changed directory is listed again under the name its events are reported with (the spelling it was added under), the name its seen marks are kept under"
+//@   atcall kqueue.remove: !arg_unwatchFiles                                                                                  [C18 C17] "when a watched directory disappears only its own watch is dropped here: the watches of its entries end with their own notifications, so that each entry still reports its Remove"
 //@   atcall kqueue.remove: arg_name == filepath.Clean(arg_name) ==> arg_name == path.name                                     [C17] "when a watched path is deleted or renamed, the removal is asked for under the name the tables are keyed by (so that its descriptor is closed)"
 //@   loop 1 "for"
 //@     invariant KWf(w) && nolocks() && token(reader) && !closed(w.Events) && !closed(w.Errors)
